@@ -454,15 +454,18 @@ pub fn strat_strategy() -> impl Strategy<Value = Strat> {
 /// (size, align): power-of-two alignment 1..16, size a multiple of the alignment (what Rust
 /// types look like), zero included.
 pub fn shape_strategy() -> impl Strategy<Value = (usize, usize)> {
-    let regular = (prop_oneof![24 => 0usize..5, 2 => 5usize..8, 1 => 8usize..13], prop_oneof![
+    let regular = (prop_oneof![48 => 0usize..5, 4 => 5usize..8, 2 => 8usize..13, 1 => 13usize..17], prop_oneof![
         30 => 0usize..=6,
         5 => 7usize..=12,
         3 => 13usize..=40,
         1 => 41usize..=600,
+        1 => 601usize..=70_000,
         5 => Just(0usize),
     ])
         .prop_map(|(a, k)| {
             let align = 1usize << a;
+            // buffers of up to 70 000 elements for small alignments only
+            let k = if a > 3 && k > 600 { k % 601 } else { k };
             (k * align, align)
         });
     // One shape in ten has a size that is not a multiple of its alignment: no Rust type is like
@@ -530,7 +533,37 @@ pub fn history_strategy(max_len: usize) -> BoxedStrategy<History> {
             History { reqs, final_strat }
         });
     let very_long = (prop::collection::vec(add_heavy, 270..420), strat_strategy()).prop_map(|(reqs, final_strat)| History { reqs, final_strat });
-    prop_oneof![120 => mixed, 56 => mono, 16 => long, 2 => very_long, 3 => checkerboard].boxed()
+    // huge: a record of 600-1500 small columns, then one step that removes many of them and / or adds many
+    // (products live x added and live x removed above 2^17, more than 1024 additions in one close), then a tail
+    let column = (0usize..4, 1usize..4, prop::bool::weighted(0.3)).prop_map(|(a, k, uninit)| Req::Add { size: k << a, align: 1 << a, uninit, name: None, alt_spelling: false });
+    let huge = (
+        (prop::collection::vec(column.clone(), 600..1500), strat_strategy()),
+        prop_oneof![2 => Just(0usize), 2 => 1usize..6, 3 => 100usize..300],
+        prop_oneof![3 => 1usize..8, 3 => 100usize..220, 1 => 1025usize..1200],
+        any::<u16>(),
+        strat_strategy(),
+        prop::collection::vec(req_strategy(strat_strategy().boxed()), 0..12),
+        strat_strategy(),
+    )
+        .prop_map(|((mut reqs, s1), removals, additions, sel, s2, tail, final_strat)| {
+            reqs.push(Req::Close { strat: s1 });
+            let mut left = removals;
+            let mut k = 0u16;
+            while left > 0 {
+                let count = left.min(50);
+                reqs.push(Req::RemoveBurst { sel: sel.wrapping_add(k.wrapping_mul(7919)), count: count.max(2) as u8 });
+                left -= count;
+                k += 1;
+            }
+            for i in 0..additions {
+                let a = (i * 7 + sel as usize) % 4;
+                reqs.push(Req::Add { size: (1 + i % 3) << a, align: 1 << a, uninit: i % 3 == 0, name: None, alt_spelling: false });
+            }
+            reqs.push(Req::Close { strat: s2 });
+            reqs.extend(tail);
+            History { reqs, final_strat }
+        });
+    prop_oneof![120 => mixed, 56 => mono, 16 => long, 2 => very_long, 3 => checkerboard, 1 => huge].boxed()
 }
 
 // ---------------------------------------------------------------------------------------------
